@@ -117,7 +117,7 @@ def run(ctx):
     ctx.suites_run += ["S-loop", oracles.SUITE]
     rng = ctx.rng
     ctx.rule("strict: all optimizers × continuous tasks (7 bound regimes, dimension 1..8, 4 single + 2 weighted multi objectives, min/max) × configs (max_cycles 1,2,3,5; population 1×..3× (+0/+1/+3); one algorithm parameter moved inside its validator range in 30% of the runs; "
-             "early stopping / fitness_error variants, early-stopping fields left None) × serial/thread(/process); baseline: ≥ 3 integer-coded tasks per working (optimizer, encoding) pair; malformed: every combination of "
+             "early stopping / fitness_error variants, early-stopping fields left None; one objective given as scalar + one weight / as a one-element list with and without a weight) × serial/thread(/process); baseline: ≥ 3 integer-coded tasks per working (optimizer, encoding) pair; malformed: every combination of "
              "{config present/absent} × workers {None,-3,0,1,4} × mode {None, 3 valid, 3 invalid} + invalid definitions + weight-count mismatches; a case = one run / call; non-trivial = all; distinct by job")
     invalid_calls(ctx)
     names = optimizers.names()
@@ -141,6 +141,12 @@ def run(ctx):
             for mc in (1, 3):
                 js.append({"name": name, "kind": "cont-sym", "specs": trace.task_specs(rng, rng.choice(["cont-sym", "cont", "cont-zero"]), rng.choice([2, 3, 5])), "objective": rng.choice(["sphere", "rastrigin"]),
                            "minmax": rng.choice(["min", "max"]), "seed": rng.randrange(1, 10 ** 6), "cfg": {"max_cycles": mc, "fitness_error": None, k: v}, "mode": "serial", "trace": False, "stream": "strict"})
+    # one objective, written the two other ways the signature `float | list[float]` / `objective_weights` admit: a scalar objective with ONE weight,
+    # and a one-element list without weights (the weight-count check passes in both: 1 == 1)
+    for name in rng.sample(names, 8 if not ctx.thorough else 30):
+        for objective, weights in (("sphere", [rng.choice([0.5, 1.0, 2.0])]), ("multi1", None), ("multi1", [rng.choice([0.5, 1.0, 2.0])])):
+            js.append({"name": name, "kind": "cont-sym", "specs": trace.task_specs(rng, "cont-sym", 3), "objective": objective, "weights": weights, "minmax": rng.choice(["min", "max"]),
+                       "seed": rng.randrange(1, 10 ** 6), "cfg": {"max_cycles": 2, "fitness_error": None}, "mode": "serial", "trace": False, "stream": "strict", "one_objective": True})
     # early-stopping records with a field left None: accepted by the validator (`int | None`, `float | None`), hence "valid configurations"
     for name in rng.sample(names, 6 if not ctx.thorough else 30):
         for es in ({"patience": None}, {"min_delta": None}, {"patience": None, "min_delta": None}):
